@@ -40,7 +40,7 @@ func (o *c18Obj) Act(id int64) int64 { return o.act(id) }
 
 func (c *C18Case) text() string {
 	var b strings.Builder
-	b.WriteString("rule \"conc\" \"d\" salience 1\nbegin\n  S(@name)\n")
+	b.WriteString("rule \"conc\" \"d\" salience 1\nbegin\n  S(@name)\n  lo = mkobj()\n  pre = 5\n")
 	for bi, blk := range c.Blocks {
 		b.WriteString("  conc {\n")
 		for _, ch := range blk {
@@ -73,6 +73,24 @@ func (c *C18Case) text() string {
 					fmt.Fprintf(&b, "    O.In.Bad(%d)\n", ch.ID)
 				} else {
 					fmt.Fprintf(&b, "    O.In.Act(%d)\n", ch.ID)
+				}
+			case "method-local": // receiver is a rule local assigned before the block
+				if ch.Fails != "" {
+					fmt.Fprintf(&b, "    lo.Bad(%d)\n", ch.ID)
+				} else {
+					fmt.Fprintf(&b, "    lo.Act(%d)\n", ch.ID)
+				}
+			case "three-local":
+				if ch.Fails != "" {
+					fmt.Fprintf(&b, "    lo.In.Bad(%d)\n", ch.ID)
+				} else {
+					fmt.Fprintf(&b, "    lo.In.Act(%d)\n", ch.ID)
+				}
+			case "func-local-arg": // argument is a rule local assigned before the block
+				if ch.Fails != "" {
+					fmt.Fprintf(&b, "    bad(%d)\n", ch.ID)
+				} else {
+					fmt.Fprintf(&b, "    act2(%d, pre)\n", ch.ID)
 				}
 			}
 		}
@@ -118,7 +136,7 @@ func init() {
 				var blk []C18Child
 				for k := 0; k < n; k++ {
 					id++
-					kind := []string{"local", "local", "field", "func", "method", "three"}[uni(t, fmt.Sprintf("kind%d_%d", bi, k), 0, 5)]
+					kind := []string{"local", "local", "field", "func", "method", "three", "method-local", "three-local", "func-local-arg"}[uni(t, fmt.Sprintf("kind%d_%d", bi, k), 0, 8)]
 					if kind == "field" {
 						if usedField[id%8] {
 							kind = "local"
@@ -175,6 +193,9 @@ func checkC18(ci interface{}, x *Ctx) {
 	obj := &c18Obj{act: act, In: &c18Obj{act: act}}
 	apis["H"] = host
 	apis["O"] = obj
+	lobj := &c18Obj{act: act, In: &c18Obj{act: act}}
+	apis["mkobj"] = func() *c18Obj { return lobj }
+	apis["act2"] = func(id, x int64) int64 { return act(id) }
 	text := c.text()
 	tg := &schedTarget{env: env}
 	if c.Pool {
